@@ -1,10 +1,448 @@
-//! C07 — (stub; filled in during the build phase)
+//! C07 — code generation happens only after an error-free compilation (engine E3, complete product).
+//!
+//! Statement: generators are started, and files are written, only if every input file was read, parsed, resolved
+//! and validated without a single error and generation was not turned off with `--dry-run`; warnings alone never
+//! prevent generation.  The exit status is non-zero exactly when at least one error diagnostic was emitted.
+//!
+//! Family `product`: program class (13) x position of the offending file among three source files (3) x
+//! number of logging generators (0..=3, all healthy, one small file each) x `--dry-run` (2) x `-A` (none, `All`,
+//! `Deprecated` = the lint the warning classes produce) x `-O out` given or not (2) x diagnostic format (human,
+//! json).  Family `generator-failure`: error-free programs (clean / warnings only) with 1..3 generators of which
+//! exactly one fails (missing executable, exit 1, empty reply), for the "exit status ... or from a generator that
+//! failed" half of the statement (the full fault catalogue is C18's).  Every combination is one run of the real
+//! `slicec` binary.
+//!
+//! What the oracle does NOT demand (the statement is silent): the number or codes of the diagnostics of an
+//! erroneous program (C04's business — only "at least one error" is used), whether allowed warnings are printed
+//! (C13), the summary line on stdout (C14), the order in which generators are started.
 
 use super::PropMeta;
 use crate::engine::*;
+use crate::proc::{self, Gen, Install, Node, Scenario, Script, Step};
+use crate::util::*;
+use serde_json::{json, Value};
+use std::time::Duration;
 
-pub fn meta(_m: &mut PropMeta) {}
+pub fn meta(m: &mut PropMeta) {
+    m.rule = "two complete products, every combination executed as one run of the real slicec binary in a private directory. Family product: program class {clean, warnings only (use of a [deprecated] type), missing file, directory named x.slice, file with invalid UTF-8, preprocessor error, syntax error, unknown attribute, unresolved type, containment cycle, redefinition, rule violation (empty compact struct), rule violation in one file + warning in another} x position of the offending file among three source files x 0..3 logging fake generators (healthy: read the request, reply with one small file) x --dry-run on/off x -A {none, All, Deprecated} x -O given or not x --diagnostic-format {human, json}. Family generator-failure: {clean, warnings only} x 1..3 generators of which exactly one (every position) fails {missing executable, exit status 1 after a valid reply, empty reply} x -A x format x --dry-run. Oracle (from the statement): a generator's start marker exists iff the program class has no error and --dry-run is off (all configured startable generators, each started exactly once); no path of the working/output directory is created or changed unless generators were expected to run, and when they are every healthy generator's file exists with the bytes sent; exit status != 0 iff stderr carries >= 1 error diagnostic ('error [' line / JSON object with severity error); an error class or a failing generator gives >= 1 error diagnostic, a clean/warning class with healthy generators none; no signal, panic or hang. non-trivial = at least one generator configured or the program class has an error; distinct = distinct rendered scenarios; outcome class = (exit status, set of generators that ran, #error diagnostics, #warning diagnostics, #paths changed).";
+    m.explanation = "process-level enumeration of the complete option/program-class product against the gating rule of the statement, observed through the start markers and captured stdin of scripted fake generators";
+    m.quick_bound = "product: 13 program classes x 3 positions x 0..3 generators x dry-run x 3 -A values x -O x 2 formats = 3744 runs; generator-failure: 2 classes x 6 (count, failing position) x 3 faults x 3 -A x 2 formats x dry-run = 432 runs (both complete)";
+    m.thorough_bound = "same complete products (4176 runs)";
+    m.quick_cap_s = 45.0;
+    m.thorough_cap_s = 120.0;
+}
 
 pub fn families(_tier: &str) -> Vec<Box<dyn Family>> {
-    vec![]
+    vec![Box::new(Product), Box::new(GeneratorFailure)]
+}
+
+#[derive(Clone, Copy, Debug, PartialEq)]
+enum Class {
+    Clean,
+    Warn,
+    Missing,
+    Directory,
+    InvalidUtf8,
+    Preprocessor,
+    Syntax,
+    UnknownAttribute,
+    Unresolved,
+    Cycle,
+    Redefinition,
+    Rule,
+    RulePlusWarningElsewhere,
+}
+
+const CLASSES: [Class; 13] = [
+    Class::Clean,
+    Class::Warn,
+    Class::Missing,
+    Class::Directory,
+    Class::InvalidUtf8,
+    Class::Preprocessor,
+    Class::Syntax,
+    Class::UnknownAttribute,
+    Class::Unresolved,
+    Class::Cycle,
+    Class::Redefinition,
+    Class::Rule,
+    Class::RulePlusWarningElsewhere,
+];
+
+impl Class {
+    fn name(self) -> &'static str {
+        match self {
+            Class::Clean => "clean",
+            Class::Warn => "warnings-only",
+            Class::Missing => "missing-file",
+            Class::Directory => "directory-named-slice",
+            Class::InvalidUtf8 => "invalid-utf8",
+            Class::Preprocessor => "preprocessor-error",
+            Class::Syntax => "syntax-error",
+            Class::UnknownAttribute => "unknown-attribute",
+            Class::Unresolved => "unresolved-type",
+            Class::Cycle => "cycle",
+            Class::Redefinition => "redefinition",
+            Class::Rule => "rule-violation",
+            Class::RulePlusWarningElsewhere => "rule-violation+warning-elsewhere",
+        }
+    }
+    fn has_error(self) -> bool {
+        !matches!(self, Class::Clean | Class::Warn)
+    }
+}
+
+fn clean_file(k: usize) -> String {
+    format!("module M{k}\nstruct A{k} {{ a: int32 }}\n")
+}
+
+fn warn_file(k: usize) -> String {
+    format!("module M{k}\n[deprecated] struct D{k} {{ a: int32 }}\nstruct U{k} {{ d: D{k} }}\n")
+}
+
+/// The node at position k for the offending file of `class` (None = nothing is created at that path).
+fn offending(class: Class, k: usize) -> Option<Node> {
+    let text = |s: String| Some(Node::File(s.into_bytes()));
+    match class {
+        Class::Clean => text(clean_file(k)),
+        Class::Warn => text(warn_file(k)),
+        Class::Missing => None,
+        Class::Directory => Some(Node::Dir),
+        Class::InvalidUtf8 => {
+            let mut b = clean_file(k).into_bytes();
+            b.extend_from_slice(b"// \xff\xfe\xc3\x28\n");
+            Some(Node::File(b))
+        }
+        Class::Preprocessor => text(format!("module M{k}\n#if FOO\nstruct A{k} {{ a: int32 }}\n")),
+        Class::Syntax => text(format!("module M{k}\nstruct A{k} {{ a: int32 \n")),
+        Class::UnknownAttribute => text(format!("module M{k}\n[foo] struct A{k} {{ a: int32 }}\n")),
+        Class::Unresolved => text(format!("module M{k}\nstruct A{k} {{ a: Nope }}\n")),
+        Class::Cycle => text(format!("module M{k}\nstruct A{k} {{ a: A{k} }}\n")),
+        Class::Redefinition => text(format!("module M{k}\nstruct A{k} {{ a: int32 }}\nstruct A{k} {{ b: int32 }}\n")),
+        Class::Rule | Class::RulePlusWarningElsewhere => text(format!("module M{k}\nstruct A{k} {{ a: int32 }}\ncompact struct C{k} {{ }}\n")),
+    }
+}
+
+const ALLOW: [Option<&str>; 3] = [None, Some("All"), Some("Deprecated")];
+
+fn gen_args(i: usize) -> Vec<(String, String)> {
+    match i {
+        0 => vec![],
+        1 => vec![("k".to_string(), "v".to_string())],
+        _ => vec![("x".to_string(), "".to_string()), ("lang".to_string(), "cs".to_string())],
+    }
+}
+
+fn gen_file(i: usize) -> proc::RFile {
+    proc::rfile(&format!("gen{i}.out"), &format!("// written by generator {i}\n"))
+}
+
+#[derive(Clone, Copy, Debug, PartialEq)]
+enum GenFault {
+    /// the executable does not exist
+    Missing,
+    /// reads the request, sends a valid reply, exits with status 1
+    Exit1,
+    /// reads the request, exits 0 without a reply
+    EmptyReply,
+}
+
+const GEN_FAULTS: [GenFault; 3] = [GenFault::Missing, GenFault::Exit1, GenFault::EmptyReply];
+
+struct Case {
+    class: Class,
+    pos: usize,
+    ngens: usize,
+    dry: bool,
+    allow: Option<&'static str>,
+    outdir: bool,
+    json: bool,
+    /// (index of the generator that fails, how) — only in the family `generator-failure`
+    failing: Option<(usize, GenFault)>,
+}
+
+const RADICES: [u64; 7] = [4, 2, 13, 3, 3, 2, 2];
+
+fn case_of(idx: u64) -> Case {
+    let d = decode_index(idx, &RADICES);
+    Case {
+        ngens: d[0] as usize,
+        dry: d[1] == 1,
+        class: CLASSES[d[2] as usize],
+        pos: d[3] as usize,
+        allow: ALLOW[d[4] as usize],
+        outdir: d[5] == 1,
+        json: d[6] == 1,
+        failing: None,
+    }
+}
+
+/// (number of generators, index of the failing one)
+const FAIL_POSITIONS: [(usize, usize); 6] = [(1, 0), (2, 0), (2, 1), (3, 0), (3, 1), (3, 2)];
+const RADICES_GF: [u64; 6] = [6, 3, 2, 3, 2, 2];
+
+fn case_of_gf(idx: u64) -> Case {
+    let d = decode_index(idx, &RADICES_GF);
+    let (ngens, f) = FAIL_POSITIONS[d[0] as usize];
+    Case {
+        ngens,
+        failing: Some((f, GEN_FAULTS[d[1] as usize])),
+        class: [Class::Clean, Class::Warn][d[2] as usize],
+        pos: f % 3,
+        allow: ALLOW[d[3] as usize],
+        json: d[4] == 1,
+        dry: d[5] == 1,
+        outdir: idx % 2 == 0,
+    }
+}
+
+fn scenario(c: &Case) -> Scenario {
+    let mut tree = vec![];
+    let mut argv = vec![];
+    for k in 0..3 {
+        let path = format!("f{k}.slice");
+        if k == c.pos {
+            if let Some(n) = offending(c.class, k) {
+                tree.push((path.clone(), n));
+            }
+        } else if c.class == Class::RulePlusWarningElsewhere && k == (c.pos + 1) % 3 {
+            tree.push((path.clone(), Node::File(warn_file(k).into_bytes())));
+        } else {
+            tree.push((path.clone(), Node::File(clean_file(k).into_bytes())));
+        }
+        argv.push(path);
+    }
+    let mut gens = vec![];
+    for i in 0..c.ngens {
+        let reply = proc::encode_reply(&[gen_file(i)], &[]);
+        let install = match c.failing {
+            Some((f, GenFault::Missing)) if f == i => Install::Missing,
+            Some((f, GenFault::Exit1)) if f == i => Install::Script(Script(vec![Step::ReadAll, Step::Stdout(reply), Step::Exit(1)])),
+            Some((f, GenFault::EmptyReply)) if f == i => Install::Script(Script(vec![Step::ReadAll, Step::Exit(0)])),
+            _ => Install::Script(Script(vec![Step::ReadAll, Step::Stdout(reply), Step::Exit(0)])),
+        };
+        gens.push(Gen { name: format!("g{i}"), install });
+        argv.push("-G".to_string());
+        argv.push(proc::gen_spec(&format!("{{gen{i}}}"), &gen_args(i)));
+    }
+    if c.dry {
+        argv.push("--dry-run".to_string());
+    }
+    if let Some(a) = c.allow {
+        argv.push("-A".to_string());
+        argv.push(a.to_string());
+    }
+    if c.outdir {
+        tree.push(("out".to_string(), Node::Dir));
+        argv.push("-O".to_string());
+        argv.push("out".to_string());
+    }
+    if c.json {
+        argv.push("--diagnostic-format".to_string());
+        argv.push("json".to_string());
+    }
+    Scenario { tree, gens, argv, env: vec![] }
+}
+
+struct Product;
+struct GeneratorFailure;
+
+impl Family for Product {
+    fn name(&self) -> String {
+        "product".into()
+    }
+    fn len(&self) -> u64 {
+        product(&RADICES)
+    }
+    fn hang_secs(&self) -> f64 {
+        60.0
+    }
+    fn describe(&self, idx: u64) -> Value {
+        describe_case(&case_of(idx))
+    }
+    fn run(&self, idx: u64) -> CaseOut {
+        judge("product", &case_of(idx))
+    }
+}
+
+impl Family for GeneratorFailure {
+    fn name(&self) -> String {
+        "generator-failure".into()
+    }
+    fn len(&self) -> u64 {
+        product(&RADICES_GF)
+    }
+    fn hang_secs(&self) -> f64 {
+        60.0
+    }
+    fn describe(&self, idx: u64) -> Value {
+        describe_case(&case_of_gf(idx))
+    }
+    fn run(&self, idx: u64) -> CaseOut {
+        judge("generator-failure", &case_of_gf(idx))
+    }
+}
+
+fn describe_case(c: &Case) -> Value {
+    {
+        let gen_fails = c.failing.is_some() && !c.class.has_error() && !c.dry;
+        json!({
+            "program_class": c.class.name(),
+            "offending_file_position": c.pos,
+            "generators": c.ngens,
+            "dry_run": c.dry,
+            "allow": c.allow,
+            "output_dir_given": c.outdir,
+            "diagnostic_format": if c.json { "json" } else { "human" },
+            "failing_generator": c.failing.map(|(i, how)| format!("generator {i}: {how:?}")),
+            "expected": {
+                "generators_run": !c.class.has_error() && !c.dry,
+                "error_diagnostics": if c.class.has_error() || gen_fails { ">= 1" } else { "0" },
+                "exit_status": if c.class.has_error() || gen_fails { "!= 0" } else { "0" },
+            },
+            "scenario": scenario(c).to_json(),
+        })
+    }
+}
+
+fn judge(fam: &str, c: &Case) -> CaseOut {
+    {
+        let sc = scenario(c);
+        let rendered = sc.to_json().to_string();
+        let mut out = CaseOut::new(hash_str(&rendered));
+        out.nontrivial = c.ngens > 0 || c.class.has_error();
+        let startable = |i: usize| !matches!(c.failing, Some((f, GenFault::Missing)) if f == i);
+        let healthy = |i: usize| !matches!(c.failing, Some((f, _)) if f == i);
+        let obs = proc::run(&sc, Duration::from_secs(20));
+        out.validated = 1;
+        let input = || format!("class={} pos={} gens={} failing={:?} dry_run={} allow={:?} -O={} json={} argv={:?}", c.class.name(), c.pos, c.ngens, c.failing, c.dry, c.allow, c.outdir, c.json, sc.argv);
+
+        // diagnostics on stderr
+        let (n_err, n_warn) = if c.json {
+            let mut e = 0;
+            let mut w = 0;
+            for line in obs.stderr_text().lines() {
+                if let Ok(v) = serde_json::from_str::<Value>(line) {
+                    match v["severity"].as_str() {
+                        Some("error") => e += 1,
+                        Some("warning") => w += 1,
+                        _ => {}
+                    }
+                }
+            }
+            (e, w)
+        } else {
+            (obs.error_lines().len(), obs.warning_lines().len())
+        };
+        let ran: Vec<bool> = obs.gens.iter().map(|g| g.started > 0).collect();
+        let ran_mask: String = ran.iter().map(|r| if *r { '1' } else { '0' }).collect();
+        let changed = obs.changed_paths();
+        out.class = format!("exit={:?}{}/ran={}/errors={}/warnings={}/changed={}", obs.exit_code, obs.signal.map(|s| format!("/signal={s}")).unwrap_or_default(), ran_mask, n_err, n_warn, changed.len());
+
+        // no crash, no hang (the rest of the oracle is meaningless otherwise)
+        if obs.timed_out {
+            out.violate(format!("c07/{fam}/hang"), format!("slicec did not end within 20 s. {} || {}", input(), obs.summary()));
+            return out;
+        }
+        if let Some(loc) = obs.panic_location() {
+            out.violate(format!("c07/{fam}/panic@{loc}"), format!("slicec panicked. {} || {}", input(), obs.summary()));
+            return out;
+        }
+        if obs.signal.is_some() || obs.exit_code.is_none() {
+            out.violate(format!("c07/{fam}/killed-by-signal"), format!("slicec was killed by a signal. {} || {}", input(), obs.summary()));
+            return out;
+        }
+
+        // gating
+        let any_ran = ran.iter().any(|r| *r);
+        let expected_run = !c.class.has_error() && !c.dry;
+        let mut dry_defect = false;
+        if any_ran && c.class.has_error() {
+            out.violate(
+                format!("c07/{fam}/generators-ran-despite-errors/{}", c.class.name()),
+                format!("expected: no generator is started because the program has an error ({}); observed: started={ran_mask}. {} || {}", c.class.name(), input(), obs.summary()),
+            );
+        } else if c.dry && !c.class.has_error() && (any_ran || (c.failing.is_some() && n_err > 0)) {
+            // (a generator whose executable is missing leaves no start marker; the attempt to start it shows
+            // as an error diagnostic)
+            dry_defect = true;
+            out.violate(
+                format!("c07/{fam}/generators-ran-despite-dry-run"),
+                format!("expected: --dry-run turns generation off (no generator started, no file written); observed: started={ran_mask}, paths changed={changed:?}. {} || {}", input(), obs.summary()),
+            );
+        }
+        if expected_run && !(0..c.ngens).all(|i| ran[i] || !startable(i)) {
+            out.violate(
+                format!("c07/{fam}/generators-not-run/{}", c.class.name()),
+                format!("expected: all {} generators are started (no error in the program, warnings never prevent generation, no --dry-run); observed: started={ran_mask}. {} || {}", c.ngens, input(), obs.summary()),
+            );
+        }
+        for g in &obs.gens {
+            if g.started > 1 {
+                out.violate(format!("c07/{fam}/generator-started-more-than-once"), format!("generator {} was started {} times. {} || {}", g.name, g.started, input(), obs.summary()));
+            }
+        }
+
+        // files
+        if !dry_defect {
+            if !expected_run {
+                if !changed.is_empty() {
+                    out.violate(
+                        format!("c07/{fam}/files-changed-without-generation"),
+                        format!("expected: nothing is created or modified in the working/output directory (generation must not happen); observed changed paths: {changed:?}. {} || {}", input(), obs.summary()),
+                    );
+                }
+            } else {
+                let mut expected_paths = vec![];
+                for i in (0..c.ngens).filter(|i| healthy(*i)) {
+                    let f = gen_file(i);
+                    let p = if c.outdir { format!("out/{}", f.path) } else { f.path.clone() };
+                    match obs.after.get(&p) {
+                        Some(e) if e.kind == proc::Kind::File && e.contents == f.contents.as_bytes() => {}
+                        other => out.violate(
+                            format!("c07/{fam}/generated-file-missing-or-wrong"),
+                            format!("expected: file {p} with the bytes generator {i} sent; observed: {:?}. {} || {}", other.map(|e| proc::show_bytes(&e.contents)), input(), obs.summary()),
+                        ),
+                    }
+                    expected_paths.push(p);
+                }
+                let unexpected: Vec<&String> = changed.iter().filter(|p| !expected_paths.contains(p)).collect();
+                if !unexpected.is_empty() {
+                    out.violate(format!("c07/{fam}/unexpected-path-changed"), format!("paths changed that no generator reply names: {unexpected:?}. {} || {}", input(), obs.summary()));
+                }
+            }
+        }
+
+        // exit status <=> error diagnostics emitted
+        let failed = obs.exit_code != Some(0);
+        if n_err > 0 && !failed {
+            out.violate(format!("c07/{fam}/exit-status-zero-despite-error-diagnostic"), format!("{n_err} error diagnostic(s) were emitted but the exit status is 0. {} || {}", input(), obs.summary()));
+        }
+        if n_err == 0 && failed {
+            out.violate(format!("c07/{fam}/exit-status-nonzero-without-error-diagnostic"), format!("exit status {:?} although no error diagnostic was emitted. {} || {}", obs.exit_code, input(), obs.summary()));
+        }
+        // the program classes are what they claim to be (all generators are healthy, so errors come from
+        // compilation only)
+        if c.class.has_error() && n_err == 0 {
+            out.violate(
+                format!("c07/{fam}/erroneous-program-without-error-diagnostic/{}", c.class.name()),
+                format!("the program has an error ({}) but no error diagnostic was emitted. {} || {}", c.class.name(), input(), obs.summary()),
+            );
+        }
+        let gen_fails = c.failing.is_some() && expected_run;
+        if gen_fails && n_err == 0 {
+            out.violate(
+                format!("c07/{fam}/failed-generator-without-error-diagnostic"),
+                format!("generator {:?} fails, so an error diagnostic and a non-zero exit status are expected; no error diagnostic was emitted. {} || {}", c.failing, input(), obs.summary()),
+            );
+        }
+        // (not reported on top of the --dry-run defect: a generator that should not have run may fail)
+        if !c.class.has_error() && !gen_fails && n_err > 0 && !dry_defect {
+            out.violate(
+                format!("c07/{fam}/error-diagnostic-for-error-free-program/{}", c.class.name()),
+                format!("the program is error free and all generators are healthy, yet {n_err} error diagnostic(s) were emitted. {} || {}", input(), obs.summary()),
+            );
+        }
+        out
+    }
 }
